@@ -51,6 +51,12 @@ def _dynamic_writes(ctx, f):
                     t = ('unk',)
                 if t != PJS:
                     out.append((g, n))
+            # fields reached through operator.attrgetter / methodcaller (`map(attrgetter('parents'), ..)`): the access-path
+            # analysis does not follow them, so what is updated through them is invisible to an absence claim
+            if isinstance(n, ast.Call) and ((isinstance(n.func, ast.Name) and n.func.id in ('attrgetter', 'methodcaller', 'itemgetter'))
+                                            or (isinstance(n.func, ast.Attribute) and n.func.attr in ('attrgetter', 'methodcaller')
+                                                and isinstance(n.func.value, ast.Name) and n.func.value.id == 'operator')):
+                out.append((g, n))
             # a method chosen by name at run time and called: getattr(container, <non-constant>)(...) can be the very
             # append / remove whose absence is being claimed
             if isinstance(n, ast.Call) and isinstance(n.func, ast.Call) and isinstance(n.func.func, ast.Name) \
